@@ -19,7 +19,7 @@ type genOpts struct {
 	MaxStmts int
 	MaxDepth int             // nesting depth of blocks
 	ExprDepth int
-	Classes  map[string]bool // known divergence classes to exercise: map-insert, frac-index-write, shallow-rep, byte-strings, zero-step, div-zero, runtime-errors
+	Classes  map[string]bool // known divergence classes to exercise: map-insert, frac-index-write, shallow-rep, byte-strings, zero-step, div-zero, runtime-errors, loopvar-shadow
 	Unsupported bool         // sprinkle constructs outside the compiler's subset
 	NoTopLoopVar bool        // avoid `for v := range` at top level (vm-loopvar-global)
 }
@@ -401,6 +401,10 @@ func (g *bcProgGen) stmt(ind, depth int) {
 		g.aliasFan()
 		return
 	}
+	if depth < g.o.MaxDepth+1 && r.Intn(12) == 0 {
+		g.shadowSelf(ind, depth)
+		return
+	}
 	switch {
 	case k < 18: // declaration
 		typ := bcGenTypes[r.Intn(len(bcGenTypes))]
@@ -574,6 +578,21 @@ func (g *bcProgGen) forLoop(ind, depth int, elTyp, rng string) {
 	g.loops++
 	if withVar {
 		lv := g.fresh("i")
+		if g.o.Classes["loopvar-shadow"] && g.rng.Intn(2) == 0 {
+			// the loop variable takes the name of a variable declared in the SAME scope as the loop: for the
+			// parser and the evaluator a fresh variable of the loop's own scope, for the compiler the same symbol
+			cur := g.scopes[len(g.scopes)-1]
+			var cands []*bcGvar
+			for _, v := range cur.vars {
+				if v.typ == elTyp && !v.ro && !strings.Contains(rng, v.name) {
+					cands = append(cands, v)
+				}
+			}
+			if len(cands) > 0 {
+				lv = cands[g.rng.Intn(len(cands))].name
+				g.feat["loopvar-shadow"]++
+			}
+		}
 		g.line(ind, "for "+lv+" := "+rng)
 		g.nested(ind+1, depth+1, func() {
 			// the loop variable lives in the loop's scope for the parser
@@ -706,4 +725,122 @@ func (g *bcProgGen) aliasFan() {
 	for _, v := range arrs {
 		g.line(0, v.name+" = "+v.name)
 	}
+}
+
+var genAccumulators = map[string]bool{"gn": true, "gs": true, "gb": true, "ga": true, "gm": true}
+
+// shadowSelf emits a shadowing declaration whose initialiser reads the variable
+// it shadows: `x := x + 1` in a block nested 1-3 levels below the scope of an
+// outer x (a global or a local), optionally after an earlier sibling block
+// whose local occupied the slot the new x gets.  The initialiser belongs to
+// the scope BEFORE the declaration (parser, evaluator): it reads the outer x.
+// A compiler that defines the symbol first reads the new, unwritten slot.
+func (g *bcProgGen) shadowSelf(ind, depth int) {
+	r := g.rng
+	g.feat["shadow-self"]++
+	cur := g.scopes[len(g.scopes)-1]
+	typ := []string{"num", "num", "string", "[]num"}[r.Intn(4)]
+	// the outer variable: a visible one of that type, or a fresh one with a known literal value (never assigned)
+	var outer *bcGvar
+	if r.Intn(2) == 0 {
+		var cands []*bcGvar
+		for _, v := range g.varsOf(typ) {
+			if !genAccumulators[v.name] {
+				cands = append(cands, v)
+			}
+		}
+		if len(cands) > 0 {
+			outer = cands[r.Intn(len(cands))]
+		}
+	}
+	known := false // the value is the literal below: slices / index reads are safe
+	if outer == nil {
+		outer = &bcGvar{name: g.fresh("v"), typ: typ, ro: true}
+		switch typ {
+		case "num":
+			g.line(ind, outer.name+" := "+fmt.Sprint(2+r.Intn(40)))
+		case "string":
+			g.line(ind, outer.name+` := "`+[]string{"abc", "hello", "xyz1"}[r.Intn(3)]+`"`)
+			outer.alen = 3
+		default:
+			g.line(ind, outer.name+" := ["+g.numList(3)+"]")
+			outer.alen = 3
+		}
+		cur.vars = append(cur.vars, outer)
+		known = true
+		if ind == 0 {
+			g.use(ind, outer)
+		}
+	}
+	x := outer.name
+	// an earlier sibling block whose local takes the slot first
+	if r.Intn(2) == 0 {
+		g.feat["shadow-self:sibling"]++
+		t := &bcGvar{name: g.fresh("t"), typ: []string{"num", "string", "[]num"}[r.Intn(3)]}
+		g.line(ind, "if true")
+		switch t.typ {
+		case "num":
+			g.line(ind+1, t.name+" := "+fmt.Sprint(500+r.Intn(400)))
+		case "string":
+			g.line(ind+1, t.name+` := "sib"`)
+		default:
+			g.line(ind+1, t.name+" := [7 7]")
+		}
+		g.scopes = append(g.scopes, &gscope{})
+		g.use(ind+1, t)
+		g.scopes = g.scopes[:len(g.scopes)-1]
+		g.line(ind, "end")
+	}
+	// 1-3 levels of nesting; the intermediate levels may hold a local of their own
+	levels := 1 + r.Intn(3)
+	opened := 0
+	for l := 0; l < levels; l++ {
+		switch r.Intn(3) {
+		case 0:
+			g.line(ind+l, "for range 1")
+			g.loops++
+			opened++
+		default:
+			g.line(ind+l, "if "+[]string{"true", "(1 < 2)", "(gn == gn)"}[r.Intn(3)])
+		}
+		g.scopes = append(g.scopes, &gscope{})
+		if l < levels-1 && r.Intn(2) == 0 {
+			u := &bcGvar{name: g.fresh("u"), typ: "num"}
+			g.line(ind+l+1, u.name+" := "+fmt.Sprint(r.Intn(9)))
+			g.use(ind+l+1, u)
+		}
+	}
+	in := ind + levels
+	var init string
+	switch typ {
+	case "num":
+		init = []string{x + " + 1", "(" + x + " * 2) - " + x, "7 - " + x, x}[r.Intn(4)]
+	case "string":
+		forms := []string{x + ` + "z"`, `"a" + ` + x, x}
+		if known {
+			forms = append(forms, x+"[1:]", x+"[0]", x+"[:2] + "+x)
+		}
+		init = forms[r.Intn(len(forms))]
+	default:
+		forms := []string{x + " + [4]", "[5] + " + x, x}
+		if known {
+			forms = append(forms, x+"[1:]", "["+x+"[0] 9]", x+"[:1] + "+x)
+		}
+		init = forms[r.Intn(len(forms))]
+	}
+	g.line(in, x+" := "+init)
+	inner := &bcGvar{name: x, typ: typ}
+	g.use(in, inner)
+	if typ == "num" && r.Intn(2) == 0 {
+		// the inner x is a variable of its own: a store to it must not reach the outer one
+		g.line(in, x+" = "+x+" + 100")
+		g.use(in, inner)
+	}
+	for l := levels - 1; l >= 0; l-- {
+		g.scopes = g.scopes[:len(g.scopes)-1]
+		g.line(ind+l, "end")
+	}
+	g.loops -= opened
+	// the outer x after the blocks
+	g.use(ind, outer)
 }
